@@ -1,5 +1,5 @@
 """C02 — written files follow the published v0.2 byte layout exactly."""
-import io
+import copy, io
 from .. import posecase as pc, refenc
 from .c01 import impl_roundtrip, boundary_cases
 
@@ -18,6 +18,17 @@ def run(ctx):
         c = pc.gen_pose(rng, big=rng.random() < 0.02)
         if pc.representable(c):
             cases.append(c)
+    # planned, every run: headers beyond the 10 KiB prefetch (many points / one very long name), each read right after a file whose header differs from it in the
+    # last bytes only (`force_tail`)
+    forced = set()
+    for npts, longname in ((1300, 0), (3, 12000), (700, 6000)):
+        big = pc.gen_pose(rng)
+        comp = {"name": pc.hx("big"), "format": pc.hx("XYC"), "points": [pc.hx("p%04d" % j) for j in range(npts)], "limbs": [[0, 1]], "colors": [[1, 2, 3], [4, 5, 6]]}
+        if longname:
+            comp["points"][0] = pc.hx("n" * longname)
+        big["header"] = dict(big["header"], components=[comp])
+        big["body"] = pc.gen_body(rng, big["header"], frames=2, people=1)
+        forced.add(len(cases)); cases.append(big)
     mws = ctx.driver.run([{"op": "write", "pose": c} for c in cases])
     refs = [refenc.v02(c) for c in cases]
     mrs = ctx.driver.run([{"op": "read", "hex": r.hex()} for r in refs])
@@ -27,7 +38,8 @@ def run(ctx):
         ctx.count("spec_encoder:v0.2")
         if not ms.get("ok") or ms["hex"] != r.hex():
             ctx.violation("the Lean reference encoder (specFile) and the independent Python encoder produce different files", c if pc.case_size(c) < 3000 else {"note": "large case"}, {"model_hex": (ms.get("hex") or "")[:400], "python_hex": r.hex()[:400]}, False, size=pc.case_size(c))
-    for case, mw, ref, mr in zip(cases, mws, refs, mrs):
+    for ci, (case, mw, ref, mr) in enumerate(zip(cases, mws, refs, mrs)):
+        force_tail = ci in forced
         size = pc.case_size(case)
         slim = case if size < 3000 else {"note": "large case", "size": size}
         ctx.evaluated(case, nontrivial=len(case["header"]["components"]) > 0)
@@ -49,10 +61,24 @@ def run(ctx):
                            "impl_len": len(w[1]), "reference_len": len(ref)}, True, size=size)
         # reader direction — in a fresh cache state, or right after a file that differs only in its dimensions / version field
         PoseHeaderCache.clear_cache()
-        if rng.random() < 0.5:
+        if rng.random() < 0.5 or force_tail:
             near = dict(case, header=dict(case["header"], width=(case["header"]["width"] + 1) % 65536, height=3))
+            comps = case["header"]["components"]
+            if comps and (rng.random() < 0.5 or force_tail):
+                # … or only in the LAST bytes of the header (the last colour, limb or point name of the last component): whatever identifies a header has to cover all of it,
+                # however long it is (headers beyond the 10 KiB prefetch included)
+                last = copy.deepcopy(comps[-1])
+                if last["colors"]:
+                    last["colors"][-1][2] = (last["colors"][-1][2] + 1) % 65536
+                elif last["limbs"]:
+                    last["limbs"][-1][1] = (last["limbs"][-1][1] + 1) % 65536
+                elif last["points"]:
+                    nm = pc.unhx(last["points"][-1])
+                    last["points"][-1] = pc.hx(nm[:-1] + ("y" if not nm.endswith("y") else "z") if nm else "y")
+                near = dict(case, header=dict(case["header"], components=comps[:-1] + [last]))
+                ctx.count("reader direction after a header differing in its last bytes")
             try:
-                Pose.read(refenc.v02(near) if rng.random() < 0.7 else refenc.header(case["header"], 0x3DCCCCCD) + b"\x19\x00\x00\x00\x01\x00")
+                Pose.read(refenc.v02(near) if (rng.random() < 0.7 or force_tail) else refenc.header(case["header"], 0x3DCCCCCD) + b"\x19\x00\x00\x00\x01\x00")
             except Exception:
                 pass
             ctx.count("reader direction after a near-identical header")
